@@ -3,6 +3,7 @@ import KM.Model.GoLite
 import KM.Gen.GoAdmin
 import KM.Gen.GoGate
 import KM.Model.GoTypes
+import KM.Gen.GoTotpManage
 /-! # C08 — the administration predicates as TRANSLATED from the current source (go2lean)
 
 `isAutomationAdmin` and `isAutomationUser` (cmd/keymasterd) are translated statement by statement from /repo's
@@ -147,3 +148,88 @@ theorem c08_go_admin_and_u2f (isAdminUser : Name → Bool) (u : Name) (level : N
   rfl
 
 end KM.Admin
+
+/-! ## `totpTokenManagerHandler` from its first statement to the save (`KM/Gen/GoTotpManage.lean`, block with a join point) -/
+namespace KM.ManageGo
+open KM.GoTypes KM.Go
+
+/-- an effect that changes a profile (in memory or in the store): everything but the gate, a refusal and the end -/
+def Changes (e : ManageEffect) : Prop := (∀ n, e ≠ .fail n) ∧ e ≠ .lockedGate ∧ e ≠ .success
+
+/-- **users manage only their own tokens; managing somebody else's needs admin rights with U2F; and nothing is changed
+from a cached profile** (C08, C15), on the translated source of `totpTokenManagerHandler` (from its first statement to
+the save): any change of a profile — a token renamed, enabled, disabled or deleted in the loaded profile, or the profile
+saved — happens only on an unsealed server, for a POST by an identity `checkAuth` admitted at the web-UI level, for the
+profile of `username` where that is the caller's own name or the caller is an admin authenticated with U2F, loaded from
+the PRIMARY store (not the offline cache) without error, for an existing token; and the profile saved is that user's. -/
+theorem c08_go_totp_manage (ext : ManageExt) (method user idx action name : List Char) (lvl : Nat) (e : ManageEffect)
+    (he : Changes e)
+    (h : e ∈ (KM.Gen.GoTotpManage.totpManageCore ext method user idx action name lvl).2) :
+    ext.locked = false ∧ method = "POST".toList ∧
+    ∃ info, ext.checkAuth lvl = (info, none) ∧
+      (ext.adminAndU2F info.Username info.AuthType = true ∨ user = info.Username) ∧
+      (ext.loadProfile user).2.2.1 = false ∧ (ext.loadProfile user).2.2.2 = none ∧
+      (∀ u, e = .save u → u = user) := by
+  obtain ⟨locked, ca, pf, adm, pidx, load, has, nameOK, save⟩ := ext
+  unfold KM.Gen.GoTotpManage.totpManageCore at h
+  dsimp only at h ⊢
+  have bad0 : e ∈ (([] : List ManageEffect) ++ [ManageEffect.lockedGate]) → False := by
+    intro hm; simp at hm; exact he.2.1 hm
+  have bad : ∀ n, e ∈ (([] : List ManageEffect) ++ [ManageEffect.lockedGate] ++ [ManageEffect.fail n]) → False := by
+    intro n hm; simp at hm; rcases hm with rfl | rfl
+    · exact he.2.1 rfl
+    · exact he.1 n rfl
+  by_cases hl : locked = true
+  · subst hl; simp only [if_true] at h; exact (bad0 h).elim
+  have hl' : locked = false := by simpa using hl
+  subst hl'
+  simp only [Bool.false_eq_true, if_false] at h
+  by_cases hce : (ca lvl).2.isSome = true
+  · rw [if_pos hce] at h; exact (bad _ h).elim
+  rw [if_neg hce] at h
+  have hca : ca lvl = ((ca lvl).1, none) := by
+    cases hh : (ca lvl).2 with
+    | none => exact Prod.ext rfl hh
+    | some x => rw [hh] at hce; simp at hce
+  by_cases hm : (method != "POST".toList) = true
+  · rw [if_pos hm] at h; exact (bad _ h).elim
+  rw [if_neg hm] at h
+  have hm' : method = "POST".toList := by simpa using hm
+  cases pf with
+  | some x => simp only [Option.isSome_some, if_true] at h; exact (bad _ h).elim
+  | none =>
+    simp only [Option.isSome_none, Bool.false_eq_true, if_false] at h
+    by_cases hadm : (!adm (ca lvl).1.Username (ca lvl).1.AuthType && user != (ca lvl).1.Username) = true
+    · rw [if_pos hadm] at h; exact (bad _ h).elim
+    rw [if_neg hadm] at h
+    have hwho : adm (ca lvl).1.Username (ca lvl).1.AuthType = true ∨ user = (ca lvl).1.Username := by
+      cases ha : adm (ca lvl).1.Username (ca lvl).1.AuthType
+      · right; rw [ha] at hadm; simpa using hadm
+      · left; rfl
+    by_cases hpi : (pidx idx).2.isSome = true
+    · rw [if_pos hpi] at h; exact (bad _ h).elim
+    rw [if_neg hpi] at h
+    by_cases hle : (load user).2.2.2.isSome = true
+    · rw [if_pos hle] at h; exact (bad _ h).elim
+    rw [if_neg hle] at h
+    have hle' : (load user).2.2.2 = none := by
+      cases hh : (load user).2.2.2 with
+      | none => rfl
+      | some x => rw [hh] at hle; simp at hle
+    by_cases hfc : (load user).2.2.1 = true
+    · rw [if_pos hfc] at h; exact (bad _ h).elim
+    rw [if_neg hfc] at h
+    have hfc' : (load user).2.2.1 = false := by simpa using hfc
+    refine ⟨rfl, hm', (ca lvl).1, hca, hwho, hfc', hle', ?_⟩
+    intro u hu
+    subst hu
+    by_cases hok : (!has (pidx idx).1) = true
+    · rw [if_pos hok] at h; exact (bad _ h).elim
+    rw [if_neg hok] at h
+    repeat' split at h
+    all_goals first
+      | exact (bad _ h).elim
+      | (simp at h; exact h)
+      | (simp at h)
+
+end KM.ManageGo
